@@ -3,7 +3,7 @@
 # 1. base library from /repo HEAD (cached in /tmp/conf_base), 2. patched library in a scratch worktree,
 # 3. demo against both (expects pass before / fail after), 4. existing pytest suite on the patched worktree.
 set -u
-ID=$1; SRC=/tmp/seeded_out/$ID; DEMO=${2:-$(ls $SRC/demo.c* | head -1)}
+ID=$1; SRC=${SEEDSRC:-/tmp/seeded_out}/$ID; DEMO=${2:-$(ls $SRC/demo.c* | head -1)}
 MODE=${MODE:-plain}
 HEAD=$(git -C /repo rev-parse --short HEAD)
 BASE=/tmp/conf_base_${HEAD}_$MODE
